@@ -16,6 +16,7 @@ CONSTANTS
   CloseConn = TRUE
   HasFallback = TRUE
   AllowClose = TRUE
+  RtoChanges = 0
   DeadlineTicks = FALSE
   OneAtATime = FALSE
   SafePool = FALSE
@@ -28,5 +29,6 @@ INVARIANT RoutedByID
 INVARIANT ConnOwnership
 INVARIANT GoroutinesGone
 PROPERTY ClosedStartsRefused
+PROPERTY RtoSnapshot
 ACTION_CONSTRAINT PrintEdge
 CHECK_DEADLOCK FALSE
